@@ -61,6 +61,7 @@ const (
 	decoCondTrueBranch
 	decoStackedPrefix
 	decoInContext
+	decoLiteralOperands
 	decoCount
 )
 
@@ -147,6 +148,19 @@ func (p *c04) chainAt(i int) *c04chain {
 		case decoRichOperands:
 			for x := 0; x <= n; x++ {
 				c.enrich(x, chainNo+x)
+			}
+		case decoLiteralOperands:
+			// every operand a literal of the same kind - all strings, all numbers, or strings and numbers in turn:
+			// whatever a parser computes ahead of time for literals, it computes it for the grouping the table gives
+			for x := 0; x <= n; x++ {
+				switch chainNo % 3 {
+				case 0:
+					c.enrich(x, 7)
+				case 1:
+					c.enrich(x, 8)
+				default:
+					c.enrich(x, 7+(x+chainNo/3)%2)
+				}
 			}
 		}
 		return c
@@ -486,6 +500,8 @@ var c04Valuations = []map[string]interface{}{
 	{"v0": 1, "v1": 2, "v2": 3, "v3": 4, "v4": 5, "v5": 2, "v6": 1, "v7": 3, "v8": 2, "v9": 1, "v10": 2, "v11": 3, "v12": 1, "v13": 2},
 	{"v0": "2", "v1": 3, "v2": "1", "v3": 2.5, "v4": "a", "v5": 0, "v6": "3", "v7": 1, "v8": "b", "v9": 2, "v10": "12", "v11": 1, "v12": "x", "v13": 0},
 	{"v0": true, "v1": nil, "v2": false, "v3": 2, "v4": true, "v5": "", "v6": 0, "v7": nil, "v8": 1, "v9": false, "v10": true, "v11": 3, "v12": nil, "v13": 2},
+	// floats whose sums and products depend on the order in which they are formed: (0.1 + 0.2) + 0.3 is not 0.1 + (0.2 + 0.3)
+	{"v0": 0.1, "v1": 0.2, "v2": 0.3, "v3": 1e16, "v4": -1e16, "v5": 1.5, "v6": 0.7, "v7": 1e-3, "v8": 3.3, "v9": 0.1, "v10": 2.2, "v11": 1e15, "v12": 0.3, "v13": 7.7},
 }
 
 // c04name: every other operand is a name that begins with an operator word (index, order, isle, nota, andy ...):
@@ -573,7 +589,7 @@ func (p *c04) Run(i int) (res fw.Result) {
 }
 
 func (p *c04) Rule() string {
-	return "exhaustive: every chain of k binary operators (all 27, incl. is / is not with a test as right operand) over self-identifying operands for k<=2 (quick) / k<=4 (thorough: 27+729+19683+531441 chains), each in 12 decorations (plain; operands that are not plain names: interpolated strings ending / starting / consisting of an interpolation, calls, filters, subscripts of array and hash literals, string literals; unary -,+,not on the first / second / last operand; not on the first plus - on the last; trailing conditional; a parenthesised conditional as an operand; right-nested conditionals with the chain in the branches; a conditional nested in the true branch; stacked prefix operators (not -, - -, not not, - not, + -) on first, second and last operand; the whole chain, with and without a trailing conditional, inside a subscript / call / filter / method / test argument list / array / hash value / computed hash key / interpolation); operands may also be number literals; every other operand name begins with an operator word (index1, order3, isle5, nota7, andy9 ...); plus seeded random chains of 5..12 operators with random prefixes and conditionals. Oracle: reference precedence climbing over a pinned copy of the operator table yields the fully parenthesised form; the flat and the parenthesised spelling must parse to the same tree (GroupExpr erased) and render identically (output and error kind) under 3 valuations (all chains k<=3, every 20th k=4 chain, all random chains). Non-trivial = k>=2; distinct = operator sequence + decoration."
+	return "exhaustive: every chain of k binary operators (all 27, incl. is / is not with a test as right operand) over self-identifying operands for k<=2 (quick) / k<=4 (thorough: 27+729+19683+531441 chains), each in 12 decorations (plain; operands that are not plain names: interpolated strings ending / starting / consisting of an interpolation, calls, filters, subscripts of array and hash literals, string literals; unary -,+,not on the first / second / last operand; not on the first plus - on the last; trailing conditional; a parenthesised conditional as an operand; right-nested conditionals with the chain in the branches; a conditional nested in the true branch; stacked prefix operators (not -, - -, not not, - not, + -) on first, second and last operand; the whole chain, with and without a trailing conditional, inside a subscript / call / filter / method / test argument list / array / hash value / computed hash key / interpolation); operands may also be number literals; every other operand name begins with an operator word (index1, order3, isle5, nota7, andy9 ...); plus seeded random chains of 5..12 operators with random prefixes and conditionals. Oracle: reference precedence climbing over a pinned copy of the operator table yields the fully parenthesised form; the flat and the parenthesised spelling must parse to the same tree (GroupExpr erased) and render identically (output and error kind) under 4 valuations (integers; strings and numbers; booleans and null; floats whose sums depend on the order of addition) (all chains k<=3, every 20th k=4 chain, all random chains). Non-trivial = k>=2; distinct = operator sequence + decoration."
 }
 
 func (p *c04) Assumptions() []string {
